@@ -120,6 +120,9 @@ type harnessResult struct {
 }
 
 func solverFor(h *ssa.Function, def string) string {
+	if f := os.Getenv("GOSMT_FORCE_SOLVER"); f != "" {
+		return f
+	}
 	// harnesses whose name ends in _cvc5 are decided by cvc5 (calendar arithmetic, see DESIGN P6)
 	if strings.HasSuffix(h.Name(), "_cvc5") {
 		return "cvc5"
@@ -226,6 +229,7 @@ func runCmd(args []string) int {
 
 	// replay
 	rp := newReplayer(p, prop)
+	rp.tier = tc.name
 	exit := 0
 	var lines []string
 	violations := 0
@@ -458,6 +462,7 @@ func compareObs(sc *symex.Candidate, outcome string) bool {
 
 type replayer struct {
 	p     *symex.Program
+	tier  string
 	prop  string
 	work  string
 	bins  map[string]string // pkg dir -> test binary
@@ -539,6 +544,7 @@ type witnessFile struct {
 	Label      string       `json:"label,omitempty"`
 	Pos        string       `json:"pos,omitempty"`
 	Known      string       `json:"known,omitempty"`
+	Tier       string       `json:"tier"`
 	Draws      []symex.Draw `json:"draws"`
 }
 
@@ -551,7 +557,7 @@ func (r *replayer) replay(h *ssa.Function, c *symex.Candidate) (string, string) 
 	r.count++
 	n := r.count
 	r.mu.Unlock()
-	wf := witnessFile{Property: r.prop, Harness: h.Name(), Package: h.Pkg.Pkg.Path(), Obligation: c.Obligation, Kind: c.Kind, Label: c.Label, Pos: c.Pos, Known: c.Known, Draws: c.Draws}
+	wf := witnessFile{Tier: r.tier, Property: r.prop, Harness: h.Name(), Package: h.Pkg.Pkg.Path(), Obligation: c.Obligation, Kind: c.Kind, Label: c.Label, Pos: c.Pos, Known: c.Known, Draws: c.Draws}
 	data, _ := json.MarshalIndent(wf, "", " ")
 	rel := ""
 	var path string
